@@ -388,6 +388,9 @@ pub struct Hist {
     pub skipped_ops: u32,
     /// indices into `atts`: local attachments made after their scope was full (may be omitted)
     pub overflow_atts: HashSet<usize>,
+    /// names of local spans / events and keys of properties issued where nothing records (no
+    /// scope, a scope of an unsampled span, a full scope): they must not be delivered anywhere
+    pub dark_names: Vec<String>,
     /// empty report() calls of idle cycles (not recorded as batches)
     pub idle_reports: u64,
     pub executed_ops: u32,
